@@ -1,6 +1,6 @@
 //! Library map files (IEEE 1800-2017 33.3): library declarations, include statements, null statements.
-//! Non-literal paths avoid "/*" and "//" (the preprocessor runs first and would see a comment) and are
-//! always followed by a blank, ',' or ';' because the implementation ends them only there.
+//! Non-literal paths avoid "/*" and "//" (the preprocessor runs first and would see a comment); they end at white
+//! space of any kind, ',' or ';'.
 
 use crate::tape::Tape;
 
@@ -22,12 +22,9 @@ fn path(t: &mut Tape, out: &mut String) {
         }
     } else {
         out.push_str(t.pick_str(PATHS));
-        // a non-literal path ends at ' ', ',' or ';' only
+        // a non-literal path ends at white space, ',' or ';'
         if t.flip() {
-            out.push(' ');
-            if t.chance(1, 3) {
-                out.push_str(sep(t));
-            }
+            out.push_str(sep(t));
         }
     }
 }
@@ -87,5 +84,73 @@ pub fn generate(t: &mut Tape) -> String {
             break;
         }
     }
+    out
+}
+
+/// Token list of a library map (for layout-metamorphic checks): word-like tokens need white space between them.
+pub fn generate_tokens(t: &mut Tape) -> Vec<String> {
+    let mut toks: Vec<String> = Vec::new();
+    let n = 1 + t.below(5);
+    // (no "/*" inside a path here: the preprocessor, which runs first, takes it for a comment opener, and whether that
+    // comment is ever closed depends on the trivia that follows)
+    let plain: Vec<&str> = PATHS.iter().copied().filter(|p| !p.contains("/*") && !p.contains("//")).collect();
+    let path = |t: &mut Tape| -> String {
+        if t.chance(1, 4) {
+            t.pick_str(STR_PATHS).to_string()
+        } else {
+            t.pick_str(&plain).to_string()
+        }
+    };
+    for _ in 0..n {
+        match t.weighted(&[6, 3, 1]) {
+            0 => {
+                toks.push("library".to_string());
+                toks.push(t.pick(LIBS).trim_end().to_string());
+                toks.push(path(t));
+                let mut k = 0;
+                while k < 3 && t.chance(1, 3) {
+                    toks.push(",".to_string());
+                    toks.push(path(t));
+                    k += 1;
+                }
+                if t.chance(1, 3) {
+                    toks.push("-incdir".to_string());
+                    toks.push(path(t));
+                    if t.chance(1, 3) {
+                        toks.push(",".to_string());
+                        toks.push(path(t));
+                    }
+                }
+                toks.push(";".to_string());
+            }
+            1 => {
+                toks.push("include".to_string());
+                toks.push(path(t));
+                toks.push(";".to_string());
+            }
+            _ => toks.push(";".to_string()),
+        }
+    }
+    toks
+}
+
+/// Render a token list with a white-space run (blanks, tabs, newlines, form feeds, CR LF, comments led by a blank)
+/// in every gap where one is needed and in about half of the others.
+pub fn render_tokens(toks: &[String], t: &mut Tape) -> String {
+    const RUNS: &[&str] = &[" ", "\t", "\n", "  ", "\r\n", " \n ", "\x0c", " /* c */ ", " // c\n", "\t\t", "\n\n"];
+    let mut out = String::new();
+    for (i, tok) in toks.iter().enumerate() {
+        if i > 0 {
+            let prev = &toks[i - 1];
+            let punct = |s: &str| s == "," || s == ";";
+            // an escaped identifier needs white space behind it; so do two word-like tokens
+            let needed = (!punct(prev) && !punct(tok)) || prev.starts_with('\\');
+            if needed || t.flip() {
+                out.push_str(t.pick_str(RUNS));
+            }
+        }
+        out.push_str(tok);
+    }
+    out.push_str(t.pick_str(&["", "\n", " "]));
     out
 }
